@@ -31,6 +31,12 @@ class WireManagerBase(abc.ABC):
     def grade(self) -> None:
         """Convert data from user or neighbour to Grading objects on wires"""
 
+    def reset(self) -> None:
+        """Forgets gradings of a previous run; a mesh can be graded again
+        (written a second time) after its vertices were moved"""
+        for wire in self.wires:
+            wire.grading = Grading(wire.length)
+
     @property
     def is_defined(self) -> bool:
         """Returns True if all gradings are defined on this axis"""
@@ -142,6 +148,11 @@ class WirePropagateManager(WireManagerBase):
 
     def update(self):
         super().update()
+
+    def reset(self) -> None:
+        # chops copied from a neighbour belong to the previous run, too
+        super().reset()
+        self.chops = []
 
     def grade(self):
         """Checks each wire whether their coincidents (wires from other blocks)
